@@ -234,7 +234,7 @@ theorem lineOk_ensureSpaced (c : Ctx) : LineOk c (.ok (ensureSpaced c)) := by
 
 /-- `write_uliteral` on a text without line break whose printed units are the whole text -/
 theorem lineOk_uliteral (c : Ctx) (t : Str) (n : Option Nat) (w : Bool) (ht : (10 : CU) ∉ t) (hlen : t.length ≤ LINE)
-    (hn : n = none ∨ n = some t.length) (hcnt : n = none → countChar32 t = t.length) :
+    (hn : n = none ∨ n = some t.length) (hcnt : n = none → Writer.countChar32 t = t.length) :
     LineOk c (match writeULiteral c t n w with | none => .error ErrCodes.CIF_ERROR | some r => .ok r) := by
   have hp : printfS t.length t = t := by simp [printfS]
   have key : ∀ len : Nat, len = t.length →
@@ -552,7 +552,7 @@ theorem charFlags_off (a : Analysis) (hf : (Lemmas.WriterChar.charFlags a).1 = f
 open CifModel.Spec.TextProtocol (joinLines) in
 theorem triple_conditions (s : Str) (unq tri : Bool) (h13 : (13 : CU) ∉ s)
     (hcond : if (counters s).numLines = 1 then (counters s).maxLine + 6 ≤ LINE
-       else (counters s).firstLine + 3 < LINE ∧ (counters s).thisLine + 3 < LINE ∧ (counters s).maxLine ≤ LINE) :
+       else (counters s).firstLine + 3 ≤ LINE ∧ (counters s).thisLine + 3 < LINE ∧ (counters s).maxLine ≤ LINE) :
     ((splitLines s).headD []).length + 3 ≤ LINE ∧ ((splitLines s).getLastD []).length + 3 ≤ LINE ∧
     (∀ l ∈ splitLines s, l.length ≤ LINE) ∧ ((splitLines s).tail = [] → s.length + 6 ≤ LINE) := by
   obtain ⟨hF, hL, hAll, hN, _⟩ := analysis_lines s unq tri h13
@@ -589,6 +589,10 @@ theorem triple_conditions (s : Str) (unq tri : Bool) (h13 : (13 : CU) ∉ s)
     permission to write a text field, in both output versions -/
 theorem lineOk_writeChar (c : Ctx) (s : Str) (q allowText : Bool) (h0 : (0 : CU) ∉ s) (h13 : (13 : CU) ∉ s) :
     LineOk c (writeChar c s q allowText) := by
+  rcases Lemmas.WriterChar.writeChar_cases c s q allowText with ⟨e, _⟩ | ⟨e, _⟩ | ⟨e, _⟩
+  · rw [e]; exact lineOk_error _ _
+  · rw [e]; exact lineOk_error _ _
+  rw [e]
   by_cases hv : c.isCif1 = true ∧ validate11 s = false
   · rw [Lemmas.WriterChar.writeChar_invalid c s q allowText hv]; exact lineOk_error _ _
   obtain ⟨hdel, hlen⟩ := Lemmas.WriterChar.analyze_delim s (!q) (!c.isCif1) LINE
@@ -662,7 +666,7 @@ def strOk (s : Str) : Prop := (0 : CU) ∉ s ∧ (13 : CU) ∉ s
 
 /-- a number text: additionally one line of BMP units (true of every number the API parses or formats); its length is
     not restricted — a text longer than a line is written as a folded text field (da3325d) -/
-def numbOk (t : Str) : Prop := strOk t ∧ (10 : CU) ∉ t ∧ countChar32 t = t.length
+def numbOk (t : Str) : Prop := strOk t ∧ (10 : CU) ∉ t ∧ Writer.countChar32 t = t.length
 
 /-- a data name: one line of at most 2048 units -/
 def nameL (n : Str) : Prop := (10 : CU) ∉ n ∧ n.length ≤ LINE
@@ -692,10 +696,10 @@ theorem lineOk_name_col0 (c : Ctx) (n : Str) (hn : nameL n) (h0 : c.lastColumn =
   have hp : printfS n.length n = n := by simp [printfS]
   unfold writeULiteral
   simp only [hp, h0, Nat.add_zero, Nat.zero_add]
-  by_cases hz : countChar32 n = 0
+  by_cases hz : Writer.countChar32 n = 0
   · rw [if_pos hz]; exact lineOk_nop c
   · rw [if_neg hz]
-    by_cases h1 : countChar32 n > LINE
+    by_cases h1 : Writer.countChar32 n > LINE
     · rw [if_pos h1]; simp only [Bool.false_eq_true, ↓reduceIte]; exact lineOk_error _ _
     · rw [if_neg h1]
       exact lineOk_plain c n _ hn.1 (by simp [h0]) (by rw [h0]; simpa using hn.2)
@@ -898,7 +902,7 @@ theorem lineOk_packets : ∀ (ps : List (List (Str × V))) (c : Ctx), (∀ p ∈
     · intro c1; exact ih c1 (fun x hx => h x (List.mem_cons_of_mem _ hx))
 
 /-- a name of a loop header fits its line, indented or not -/
-def headerL (n : Str) : Prop := (10 : CU) ∉ n ∧ n.length + (if countChar32 n < LINE then 1 else 0) ≤ LINE
+def headerL (n : Str) : Prop := (10 : CU) ∉ n ∧ n.length + (if Writer.countChar32 n < LINE then 1 else 0) ≤ LINE
 
 theorem lineOk_headerNames : ∀ (ns : List Str) (c : Ctx), c.lastColumn = 0 → (∀ n ∈ ns, headerL n) →
     LineOk c (writeHeaderNames ns c) := by
@@ -917,16 +921,16 @@ theorem lineOk_headerNames : ∀ (ns : List Str) (c : Ctx), c.lastColumn = 0 →
         intro _ k hk
         have hk0 : k = 0 := by omega
         subst hk0
-        have hno : (10 : CU) ∉ (if countChar32 n < LINE then [32] else []) ++ n := by
+        have hno : (10 : CU) ∉ (if Writer.countChar32 n < LINE then [32] else []) ++ n := by
           simp only [List.mem_append, not_or]
           refine ⟨?_, hn.1⟩
           split <;> simp
-        have hlen : ((if countChar32 n < LINE then [32] else []) ++ n).length ≤ LINE := by
+        have hlen : ((if Writer.countChar32 n < LINE then [32] else []) ++ n).length ≤ LINE := by
           have := hn.2
-          by_cases hc : countChar32 n < LINE
+          by_cases hc : Writer.countChar32 n < LINE
           · simp only [hc, ↓reduceIte] at this ⊢; simp; omega
           · simp only [hc, ↓reduceIte] at this ⊢; simpa using this
-        generalize (if countChar32 n < LINE then [32] else []) ++ n = t at hno hlen
+        generalize (if Writer.countChar32 n < LINE then [32] else []) ++ n = t at hno hlen
         obtain ⟨a1, a2⟩ := track_noeol t 0 hno
         rw [fitsU_append, endCol_append, a1, a2]
         simp only [fitsU, endCol, ↓reduceIte, Nat.zero_add, Bool.and_eq_true, decide_eq_true_eq, and_true]
